@@ -97,6 +97,10 @@ var whitelist = []FuncSpec{
 	{"pkg/provider", "IdentityProvider", "attributeQueryHandleFunc"},
 	{"pkg/provider", "", "getAuthRequestFromRequest"},
 	{"pkg/provider", "IdentityProvider", "ssoHandleFunc"},
+	{"pkg/provider", "", "getMetadataCert"},
+	{"pkg/provider", "Config", "getMetadata"},
+	{"pkg/provider", "Provider", "GetMetadata"},
+	{"pkg/provider", "Provider", "metadataHandle"},
 }
 
 // extraFields are struct fields the hand-written handler models read although no translated function does.
@@ -1402,7 +1406,7 @@ var storageEffects = map[string]bool{"CreateAuthRequest": true}
 var outParamMethods = map[string]int{"SetUserinfoWithUserID": 1, "SetUserinfoWithLoginName": 0}
 
 // funcOracles: untranslated package-level functions that may be called as oracles (typed by their Go signature)
-var funcOracles = map[string]bool{"createRedirectSignature": true, "createPostSignature": true, "Marshal": true, "DeflateAndBase64": true, "DecodeLogoutRequest": true, "DecodeAuthNRequest": true, "DecodeAttributeQuery": true}
+var funcOracles = map[string]bool{"createRedirectSignature": true, "createPostSignature": true, "Marshal": true, "DeflateAndBase64": true, "DecodeLogoutRequest": true, "DecodeAuthNRequest": true, "DecodeAttributeQuery": true, "GetSigner": true, "Create": true}
 
 // scanInout finds the pointer parameters of f that the body assigns through, directly or by passing them to a
 // translated callee that does (callees are translated first: whitelist order).
